@@ -20,10 +20,11 @@ def parse_mt(out):
 
 class C15(Prop):
     pid = "C15"
-    lean_targets = ["M17.Props.C15"]
+    lean_targets = ["M17.Props.C15", "M17.Props.C16W"]
     theorems = ["M17.C15.step_inv", "M17.C15.reachable_inv", "M17.C15.fifo_all_schedules", "M17.C15.not_open_rejects_puts",
                 "M17.C15.close_keeps_items", "M17.C15.put_accept_refines", "M17.C15.put_reject_refines", "M17.C15.get_refines",
-                "M17.C15.get_closed_refines", "M17.C15.race_free", "M17.C15.access_table_nonempty"]
+                "M17.C15.get_closed_refines", "M17.C15.race_free", "M17.C15.access_table_nonempty",
+                "M17.C16W.gen_profile_ok", "M17.C16W.no_lost_wakeup"]
     level_text = ("Lean 4 theorems about a transition system whose steps are the lock-held segments of queue.h (any number of threads, any "
                   "programs of put/get/close/queries, wake-ups always enabled): for EVERY schedule size = |items| <= capacity and "
                   "putLog = getLog ++ items (each accepted item delivered at most once, in put-completion order, none lost — not by close either); "
@@ -74,6 +75,29 @@ class C15(Prop):
         for w in words:
             ctx.count(w, nontrivial=True)
         ctx.sample({"op": words[0], "impl": impl[0]})
+        # ---- several waiters on one condition variable: no accepted item is stranded while a consumer waits, no free slot while a
+        #      producer waits, and a queue that is CLOSED never holds an item --------------------------------------------------------
+        wl = [f"qwake {c} {3 if quick else 15}" for c in (1, 2, 3)]
+        wout = ctx.run_impl(exe, wl, "queue-wake", timeout=240)
+        names = {1: "W2 two consumers blocked, two puts back to back", 3: "W4 two producers blocked on a full queue, two gets back to back",
+                 4: "W5 producer blocked on a full queue, get then close at once"}
+        for ln, o in zip(wl, wout):
+            f = o.split()
+            if len(f) != 15:
+                continue
+            v = [int(x) for x in f]
+            for i, nm in names.items():
+                n, worst, anom = v[3 * i:3 * i + 3]
+                if n == 0:
+                    continue
+                ctx.count((ln, nm), nontrivial=True)
+                ctx.stat("wake:" + nm.split()[0], n)
+                if anom > 0 or (i in (1, 3) and worst > 400):
+                    what = ("an accepted item sat in the queue while a consumer stayed blocked" if i == 1 else
+                            "a free slot existed while a producer stayed blocked" if i == 3 else
+                            "after close the queue reported CLOSED while holding an item, or an accepted item was not delivered")
+                    ctx.violate(f"queue-wake:{nm.split()[0]}", f"queue<int,{ln.split()[1]}> {nm}: {what} ({anom} anomalous outcomes in {n} trials, slowest waiter {worst} ms)",
+                                {"stream": "queue-wake", "ops": [ln], "impl": o, "scenario": nm})
         # ---- real threads + trace replay ---------------------------------------------------------
         scen = []
         for cap in (1, 2, 3, 8):
